@@ -16,7 +16,8 @@ import traceback
 
 from . import env, zones as zonesmod
 
-CHUNK = 12000
+CHUNK = 12000            # events per TLC run, in units of a plain event
+BIG = {"iso_year_scan", "year_weekdays", "year_getters", "local_time_scan", "year_prims", "range"}   # events carrying arrays
 
 
 class Ctx:
@@ -26,6 +27,7 @@ class Ctx:
         self.rnd = random.Random("%s/%s/%d/%d" % (prop, backend, seed, i))
         self.shared_rnd = random.Random("%s/%d" % (prop, seed))  # same stream in every slice and backend
         self.events = []
+        self.weight = 0
         self.nid = 0
         self.ztab = None
         self.results = {}
@@ -67,10 +69,16 @@ class Ctx:
         ev["id"] = "%s.%d.%d" % (self.backend, self.i, self.nid)
         if tag is not None:
             ev["tag"] = tag
-        self.events.append(ev)
-        if len(self.events) >= CHUNK:
-            self.flush()
+        self._push(ev)
         return res
+
+    def _push(self, ev):
+        # an event that carries a whole array weighs as many plain events as its text is long (TLC holds the
+        # deserialised trace in memory: 12 000 year scans in one run exhausted a 1.5 GB heap)
+        self.weight += 1 + (len(str(ev["post"])) // 1500 if ev["op"] in BIG else 0)
+        self.events.append(ev)
+        if self.weight >= CHUNK:
+            self.flush()
 
     def add_event(self, ev):
         """log an event produced elsewhere (already executed)"""
@@ -80,9 +88,7 @@ class Ctx:
         self.nid += 1
         ev["id"] = "%s.%d.%d" % (self.backend, self.i, self.nid)
         ev["bk"] = self.backend
-        self.events.append(ev)
-        if len(self.events) >= CHUNK:
-            self.flush()
+        self._push(ev)
 
     def _zones_used(self, evs):
         used = set()
@@ -106,6 +112,7 @@ class Ctx:
         from . import tlcrun
 
         evs, self.events = self.events, []
+        self.weight = 0
         if not evs:
             return
         used = self._zones_used(evs)
